@@ -108,7 +108,7 @@ SIGNATURES = {"override_desync": _sig_override_desync, "override_unnegotiated": 
 
 
 def build_model():
-    return fw.ocaml_model("C11", ["Model/WsCodec.vo"])
+    return fw.ocaml_model("C11", ["Model/WsCodec.vo", "Model/WsSend.vo"])
 
 
 def run_model(exe, lines, timeout=1800):
@@ -280,28 +280,31 @@ def make_writer(cfg, tr, rnd):
     return w
 
 
-def instrument(w, log):
-    """Harness-side wrappers: which path a send took and the payload length that reached the wire."""
-    o_sync, o_async, o_wf = w._send_compressed_frame_sync, w._send_compressed_frame_async_locked, w._write_websocket_frame
-
-    def sync(message, opcode, compress):
-        log.append(("path", "S"))
-        return o_sync(message, opcode, compress)
-
-    async def asyn(message, opcode, compress):
-        log.append(("path", "A"))
-        return await o_async(message, opcode, compress)
-
-    def wf(message, opcode, rsv):
-        log.append(("frame", len(message), opcode, rsv))
-        return o_wf(message, opcode, rsv)
-    w._send_compressed_frame_sync = sync
-    w._send_compressed_frame_async_locked = asyn
-    w._write_websocket_frame = wf
+def parse_frames(buf: bytes):
+    """Independent frame splitter for writer output: [(first_byte, masked, payload_len)]."""
+    out, i = [], 0
+    while i < len(buf):
+        b0, b1 = buf[i], buf[i + 1]
+        n = b1 & 0x7F
+        i += 2
+        if n == 126:
+            n = struct.unpack("!H", buf[i:i + 2])[0]
+            i += 2
+        elif n == 127:
+            n = struct.unpack("!Q", buf[i:i + 8])[0]
+            i += 8
+        if b1 & 0x80:
+            i += 4
+        out.append((b0, bool(b1 & 0x80), n))
+        i += n
+    return out
 
 
 def inline_executor(loop):
+    loop._c11_exec_calls = 0
+
     def rie(executor, fn, *args):
+        loop._c11_exec_calls += 1
         fut = loop.create_future()
         try:
             fut.set_result(fn(*args))
@@ -362,9 +365,8 @@ def impl_run(loop, case):
 
     async def go():
         w = make_writer(cfg, tr, rnd)
-        instrument(w, log)
         for op in ops:
-            del log[:]
+            mark, ex0 = len(tr.buf), getattr(loop, "_c11_exec_calls", 0)
             try:
                 if op[0] == "S":
                     rnd.next = op[3]
@@ -376,10 +378,19 @@ def impl_run(loop, case):
                 tags.append("R")
                 refusals.append(type(e).__name__)
                 continue
-            paths = [x[1] for x in log if x[0] == "path"]
-            frames = [x for x in log if x[0] == "frame"]
-            tags.append(paths[0] if paths else "P")
-            wlens.append(frames[0][1] if frames else -1)
+            # what happened, read off the transport: plain / compressed frame; was the executor used
+            try:
+                frames = parse_frames(bytes(tr.buf[mark:]))
+            except Exception:  # noqa
+                frames = []
+            if len(frames) != 1:
+                tags.append("?")
+                wlens.append(-1)
+                continue
+            rsv1 = bool(frames[0][0] & 0x40)
+            used_exec = getattr(loop, "_c11_exec_calls", 0) > ex0
+            tags.append("P" if not rsv1 else ("A" if used_exec else "S"))
+            wlens.append(frames[0][2])
     with _Backend(case.get("backend", "toy")):
         loop.run_until_complete(go())
         wire = bytes(tr.buf)
@@ -843,7 +854,7 @@ def suite_zlib(ctx, loop):
     for c in mandatory_cases(rng):
         if c["cfg"]["compress"]:
             cases.append(dict(c, backend="zlib", cfg=dict(c["cfg"], compress=rng.randrange(9, 16))))
-    nrand = 1500 if ctx.quick else 30000
+    nrand = 1000 if ctx.quick else 30000
     for i in range(nrand):
         cfg = gen_cfg(rng, want_compress=rng.randrange(9, 16))
         rc = gen_rc(rng)
@@ -873,40 +884,109 @@ def suite_zlib(ctx, loop):
 # ------------------------------------------------------------------------------------------------
 # suite `concurrent`: sender tasks x controlled executor x cancellations
 
+class _TraceBackend:
+    """Wraps the active zlib backend: logs every compress() call on a compressor object with its owner task."""
+
+    def __init__(self, inner, log, owner):
+        self._inner, self._log, self._owner = inner, log, owner
+        for k in ("MAX_WBITS", "Z_FULL_FLUSH", "Z_SYNC_FLUSH", "Z_BEST_SPEED", "Z_FINISH"):
+            setattr(self, k, getattr(inner, k))
+        self.__name__ = "traced-" + getattr(inner, "__name__", "zlib")
+        self.error = getattr(inner, "error", Exception)
+
+    def compressobj(self, *a, **k):
+        obj, log, owner = self._inner.compressobj(*a, **k), self._log, self._owner
+
+        class C:
+            def compress(self_, data):
+                log.append(("cbegin", owner(), bytes(data)))
+                return obj.compress(data)
+
+            def flush(self_, *aa):
+                log.append(("cend", owner()))
+                return obj.flush(*aa)
+        return C()
+
+    def decompressobj(self, *a, **k):
+        return self._inner.decompressobj(*a, **k)
+
+    def __getattr__(self, name):
+        return getattr(self._inner, name)
+
+
 def run_history(case):
     """Execute one concurrent history on the real writer.  case = {cfg, rc, backend, senders: [[op,...],...],
-    steps: [["spawn", i] | ["exec", k, eager01] | ["cancel", i]], cuts}.  Returns the observable."""
+    steps: [["spawn", i] | ["exec", k, eager01] | ["cancel", i]], cuts}.  Returns the observable, including the
+    abstract event trace (lock acquire/release, compress, frame write) for the sender LTS."""
     from harness.common.loop import VLoop
+    from aiohttp import compression_utils as cu
     cfg, rc = case["cfg"], case["rc"]
     loop = VLoop()
     asyncio.set_event_loop(loop)
     tr, rnd = Tr(), _Rnd()
-    jobs = []           # pending executor jobs: [future, fn, args, result-or-None, started]
+    jobs = []           # pending executor jobs: [future, fn, args, owner task]
     done = {}           # (sender, k) -> "ok" | "cancelled" | "refused"
-    events = []         # abstract trace for the LTS: see Model/WsSend.v
-    eager_flags = [s[2] for s in case["steps"] if s[0] == "exec"]
+    log = []            # raw trace
+    job_owner = [None]
+
+    def owner():
+        t = asyncio.current_task(loop) if loop.is_running() else None
+        return t if t is not None else job_owner[0]
 
     def rie(executor, fn, *args):
         fut = loop.create_future()
-        jobs.append([fut, fn, args])
+        jobs.append([fut, fn, args, asyncio.current_task(loop)])
         return fut
     loop.run_in_executor = rie
+
+    def run_job(j, deliver=True):
+        fut, fn, args, own = j
+        job_owner[0] = own
+        try:
+            res = fn(*args)
+        finally:
+            job_owner[0] = None
+        if deliver and not fut.done():
+            fut.set_result(res)
+
+    class TLock(asyncio.Lock):
+        async def acquire(self_):
+            r = await super().acquire()
+            log.append(("acq", asyncio.current_task(loop)))
+            return r
+
+        def release(self_):
+            log.append(("rel", owner()))
+            return super().release()
+
+    counter = [0]
+
+    class Rnd:
+        def getrandbits(self_, k):
+            counter[0] += 1
+            self_.last = (counter[0] * 2654435761) & 0xFFFFFFFF
+            return self_.last
+    rnd = Rnd()
+    rnd.last = 0
     tasks = {}
     try:
         with _Backend(case.get("backend", "zlib")):
+            inner_backend = cu.ZLibBackend._zlib_backend
+            cu.set_zlib_backend(_TraceBackend(inner_backend, log, owner))
             w = make_writer(cfg, tr, rnd)
-            o_wf = w._write_websocket_frame
-            cur = {"who": None}
-
-            def wf(message, opcode, rsv):
-                events.append(["write", opcode, rsv, len(message)])
-                return o_wf(message, opcode, rsv)
-            w._write_websocket_frame = wf
+            if isinstance(getattr(w, "_send_lock", None), asyncio.Lock):
+                w._send_lock = TLock()
+            o_wf = getattr(w, "_write_websocket_frame", None)
+            if o_wf is not None:
+                def wf(message, opcode, rsv):
+                    r = o_wf(message, opcode, rsv)
+                    log.append(("write", owner(), opcode, rsv, rnd.last if cfg["mask"] else 0, bytes(message)))
+                    return r
+                w._write_websocket_frame = wf
 
             async def sender(i):
                 for k, op in enumerate(case["senders"][i]):
                     try:
-                        rnd.next = op[3]
                         await w.send_frame(bytes.fromhex(op[4]), op[1], op[2] or None)
                         done[(i, k)] = "ok"
                     except asyncio.CancelledError:
@@ -924,12 +1004,12 @@ def run_history(case):
                     settle()
                 elif st[0] == "exec":
                     if jobs:
-                        fut, fn, args = jobs.pop(min(st[1], len(jobs) - 1))
-                        if fut.cancelled():
+                        j = jobs.pop(min(st[1], len(jobs) - 1))
+                        if j[0].cancelled():
                             if st[2]:
-                                fn(*args)        # the thread was already running: the work happens, the result is dropped
+                                run_job(j, deliver=False)   # the thread was already running: the work happens, the result is dropped
                         else:
-                            fut.set_result(fn(*args))
+                            run_job(j)
                         settle()
                 elif st[0] == "cancel":
                     t = tasks.get(st[1])
@@ -940,11 +1020,8 @@ def run_history(case):
             for _ in range(200):
                 if not jobs:
                     break
-                fut, fn, args = jobs.pop(0)
-                if not fut.cancelled():
-                    fut.set_result(fn(*args))
-                else:
-                    fn(*args)
+                j = jobs.pop(0)
+                run_job(j, deliver=not j[0].cancelled())
                 settle()
             settle()
             stuck = [i for i, t in tasks.items() if not t.done()]
@@ -956,14 +1033,53 @@ def run_history(case):
                 if t.done() and not t.cancelled():
                     t.exception()
             wire = bytes(tr.buf)
+            cu.set_zlib_backend(inner_backend)
             msgs, status = impl_read(loop, rc, cfg["compress"], cut(wire, case.get("cuts", [])))
-            locked = w._send_lock.locked()
-            bg = len(w._background_tasks)
+            lk = getattr(w, "_send_lock", None)
+            locked = bool(lk.locked()) if lk is not None else False
     finally:
         asyncio.set_event_loop(None)
         loop.close()
     return {"wire": wire, "msgs": msgs, "status": status, "done": {f"{i}.{k}": v for (i, k), v in done.items()},
-            "stuck": stuck, "locked": locked, "bg": bg, "events": events}
+            "stuck": stuck, "locked": locked, "log": log, "traced": o_wf is not None}
+
+
+def lts_events(case, r):
+    """Raw log -> the event list of Model/WsSend.v (as driver text).  Operations are recognised by their payload
+    (unique per history); the mask bits of a compressed frame are those its later write drew."""
+    by_payload = {}
+    for ops in case["senders"]:
+        for op in ops:
+            by_payload[bytes.fromhex(op[4])] = op
+    tid = {}
+
+    def t(x):
+        return tid.setdefault(id(x), len(tid) + 1)
+
+    def optxt(op, rbits):
+        return f"S:{op[1]}:{op[2]}:{rbits}:{op[4] or '-'}"
+    log = r["log"]
+    evs = []
+    for i, e in enumerate(log):
+        if e[0] == "acq":
+            evs.append(f"A/{t(e[1])}")
+        elif e[0] == "rel":
+            evs.append(f"R/{t(e[1])}")
+        elif e[0] == "cbegin":
+            op = by_payload.get(e[2])
+            if op is None:
+                return None, f"compress() of a payload that is no sender's message ({len(e[2])} bytes)"
+            nxt = next((x for x in log[i + 1:] if x[0] == "write" and x[1] is e[1] and x[3]), None)
+            evs.append(f"K/{t(e[1])}/{optxt(op, nxt[4] if nxt else 0)}")
+        elif e[0] == "write":
+            if e[3]:
+                evs.append(f"W/{t(e[1])}")
+            else:
+                op = by_payload.get(e[5])
+                if op is None:
+                    return None, "uncompressed frame whose payload is no sender's message"
+                evs.append(f"P/{optxt(op, e[4])}")
+    return evs, None
 
 
 def judge_history(case, r):
@@ -1013,8 +1129,8 @@ def gen_history(rng, backend):
             uid += 1
             r = rng.random()
             tagb = b"<%04d>" % uid
-            if r < 0.45:
-                n = rng.choice([16385, 17000, 20000, 40000])        # executor path
+            if r < 0.35:
+                n = rng.choice([16385, 16385, 16500, 20000])        # executor path
             elif r < 0.85:
                 n = rng.choice([0, 10, 300, 16384])                # in-loop path
             else:
@@ -1074,8 +1190,9 @@ def shrink_history(case, budget=60):
 
 def suite_concurrent(ctx, exe):
     rng = ctx.rng
-    n = 500 if ctx.quick else 8000
+    n = 200 if ctx.quick else 6000
     ran = 0
+    lts_lines, lts_cases = [], []
     for i in range(n):
         case = gen_history(rng, "zlib" if i % 3 else "toy")
         try:
@@ -1084,8 +1201,14 @@ def suite_concurrent(ctx, exe):
             ctx.disagreement("concurrent", _small_h(case), None, f"harness exception {e!r}")
             continue
         ran += 1
-        ctx.traces_validated += 1
         ctx.case((json.dumps(case, sort_keys=True), r["wire"], r["status"]), nontrivial=bool(r["msgs"]))
+        if exe is not None and r["traced"]:
+            evs, why = lts_events(case, r)
+            if evs is None:
+                ctx.disagreement("concurrent", _small_h(case), "trace not expressible in the sender LTS", why)
+            else:
+                lts_lines.append(" ".join(["LTS", str(case["cfg"]["mask"]), str(case["cfg"]["compress"]), str(case["cfg"]["notakeover"])] + evs))
+                lts_cases.append((case, r, evs))
         ctx.count(f"concurrent:senders:{len(case['senders'])}")
         for v in r["done"].values():
             ctx.count(f"concurrent:send:{v}")
@@ -1096,6 +1219,20 @@ def suite_concurrent(ctx, exe):
             if not b2:
                 small, b2 = case, bad
             ctx.violation(small, "concurrent senders: " + b2)
+    # trace validation: the observed lock / compress / write events must be a trace of the sender LTS, end with the
+    # lock free, and (toy codec) give the model the very bytes the implementation wrote
+    if lts_lines:
+        answers = run_model_parallel(exe, lts_lines)
+        for (case, r, evs), ans in zip(lts_cases, answers):
+            f = dict(x.split(":", 1) for x in ans.split(";") if ":" in x)
+            ok = ans.startswith("OK") and f.get("H") == "none"
+            if ok and case["backend"] == "toy" and fw.unhex(f.get("W", "-")) != r["wire"]:
+                ok = False
+            if ok:
+                ctx.traces_validated += 1
+                ctx.count("concurrent:events", len(evs))
+            else:
+                ctx.disagreement("concurrent", _small_h(case), ans[:200], {"events": [e[:40] for e in evs][:60], "wire": r["wire"].hex()[:200]})
     ctx.sample({"suite": "concurrent", "case": _small_h(gen_history(rng, "zlib"))})
     ctx.close_suite("concurrent", ran)
 
